@@ -677,6 +677,16 @@ theorem emit_view (ext : Ext) (o : Obj) : ∀ (ws : List WF) (pre : List WF) (vi
             rw [hcc]
           · exact ihb w' hw' how
 
+/-- an entry of the initial view (an external argument) that no statement overwrites is still there at the end -/
+theorem emit_numAt_arg (ext : Ext) (o : Obj) (ws : List WF) (args : View) (bytes : Bytes) (view : View) (g : Nat)
+    (he : emit ext o ws args = some (bytes, view)) (hg : ws.all (fun p => p.id != g) = true) :
+    numAt view g = numAt args g := by
+  apply numAt_congr
+  apply emit_lookup_other ext o ws args bytes view he g
+  intro p hp
+  have := List.all_eq_true.mp hg p hp
+  simpa using this
+
 /-! ## format enums -/
 
 theorem enumCompat_mem (hw : Nat) : ∀ (vs : List Variant) (v : Variant), enumCompat hw vs = true → v ∈ vs →
